@@ -77,7 +77,9 @@ Judge(s, e) ==
   ELSE IF e.op = "lle" THEN
        IF o.neg THEN "lle.negative_flow"
        ELSE IF o.same > SameTol THEN "lle.reuse_differs_from_fresh_solve"
-       ELSE IF o.scale > ScaleTol THEN "lle.not_proportional_to_feed"
+       \* the Gibbs-minimising methods stop at f_tol = 1e-6 on the Gibbs energy: two runs that differ in the last bits of the
+       \* normalised feed agree only to the solver's resolution (o.scale_tol, given per method by the driver)
+       ELSE IF o.scale > o.scale_tol THEN "lle.not_proportional_to_feed"
        ELSE IF ~o.top_ok THEN "lle.top_chemical_in_wrong_phase"
        ELSE IF o.two /\ o.act > ActTol THEN "lle.activities_differ"
        ELSE "ok"
